@@ -21,11 +21,12 @@
                                  of exons, regions over the origin and all the way round, features running over
                                  the origin with any number of exons
     inside_kept_partial          every feature inside the region is written (origin-spanning ones: one part on
-                                 each side of the origin)
-    extract_reloads_partial      the file is numbered as a record loading it numbers it (1..n per kind, each
-                                 number once, in load order), every reference by number resolves, there is one
-                                 region feature spanning the file, `core_location` texts read back to the bases of
-                                 the `proto_core` features (also `regionFeatureOK`)
+                                 each side of the origin, or any number per side in transcription order)
+    extract_reloads              the executable `selfConsistent` in full: the file is numbered as a record loading
+                                 it numbers it (1..n per kind, each number once, in load order), every reference by
+                                 number resolves, there is one region feature spanning the file, `core_location`
+                                 texts read back to the canonical form of the `proto_core` features (also
+                                 `regionFeatureOK`)
     write_succeeds_partial       (also `writable`) `write_to_genbank` does not raise
     motif_locations_partial      leader/tail texts of any number of parts are rewritten part by part to the text
                                  of the moved parts, which reads back and covers the same bases
@@ -38,6 +39,8 @@ import ASV.Proofs.RegionExtractRegion
 import ASV.Proofs.RegionAnnotations
 import ASV.Proofs.RegionExtractMotif
 import ASV.Proofs.RegionOutputs
+import ASV.Proofs.RegionExtractKeptMulti
+import ASV.Proofs.RegionExtractCores
 namespace ASV.C12
 open ASV ASV.RegionExtract
 
@@ -131,17 +134,43 @@ theorem shift_same_bases_partial (rd : RegionData) (rec : BioRecord) (w : Writte
 /-- Nothing inside the region is left out: a feature of the full record that lies inside the region
     (`insideRegion`: all parts between the region's start and end; over the origin: all before it, all after it,
     or — for a feature that itself runs over the origin — each part on its side) is written.
-    Remaining hypothesis: a feature running over the origin inside a region over the origin has one part on each
-    side of the origin (`twoPart`; with more exons the loop's "does it still cross the origin" test depends on the
-    exon order, left to the executable `insideKept`). -/
+    For a feature running over the origin inside a region over the origin: it has one part on each side of the
+    origin (`twoPart`, also when it goes all the way round), or **any number of exons on each side** in transcription
+    order (`ringOrdered`: forward strand — those before the origin ascending, then those after it ascending; reverse
+    strand — those after the origin descending, then those before it descending; none empty, none reaching into
+    another) and is not as long as the record.  The order is needed, not a gap of the proof: the loop keeps an
+    origin-spanning feature only if, moved into file coordinates, it no longer looks origin-spanning
+    (`location_bridges_origin`), and exons in another order still do — such a feature is not a gene lying over the
+    origin but a scrambled location, and the code drops it. -/
 theorem inside_kept_partial (rd : RegionData) (rec : BioRecord) (w : Written)
     (h : writeToGenbank rd rec = .ok w)
     (hreg : rd.crossesOrigin = true → 0 < rd.end ∧ rd.start < rec.length)
     (f : BioFeature) (hf : f ∈ rec.features) (hne : f.loc.parts ≠ [])
     (hin : insideRegion rec.length rd f.loc = true)
-    (htwo : rd.crossesOrigin = true → bridgesOrigin f.loc = true → twoPart rec.length f.loc = true) :
+    (hord : rd.crossesOrigin = true → bridgesOrigin f.loc = true →
+      twoPart rec.length f.loc = true ∨ (ringOrdered rec.length rd f.loc = true ∧ f.loc.len ≠ rec.length)) :
     ∃ g ∈ w.extract.features, g.tag = f.tag :=
-  written_contains_inside rd rec w h hreg f hf hne hin htwo
+  written_contains_inside_multi rd rec w h hreg f hf hne hin hord
+
+/-- Not vacuous: genes with two exons on each side of the origin, one per strand, inside the region `[16:20]+[0:6]`
+    of a record of 20 bases: in transcription order, not `twoPart`, and written as one run each (abutting pieces
+    joined where `offset_location` joins them: in ascending order) -/
+def exMultiRd : RegionData := { start := 16, «end» := 6, cands := [], subs := [] }
+def exMultiRec : BioRecord :=
+  { seq := "ACGTACGTACGTACGTACGT".toList,
+    features := [
+      ⟨0, "CDS", .compound [⟨16, 17, .fwd⟩, ⟨18, 20, .fwd⟩, ⟨0, 2, .fwd⟩, ⟨3, 5, .fwd⟩], {}⟩,
+      ⟨1, "CDS", .compound [⟨4, 6, .rev⟩, ⟨0, 1, .rev⟩, ⟨19, 20, .rev⟩, ⟨16, 18, .rev⟩], {}⟩] }
+
+example : exMultiRec.features.all (fun f => bridgesOrigin f.loc && ringOrdered 20 exMultiRd f.loc &&
+    !twoPart 20 f.loc && insideRegion 20 exMultiRd f.loc) = true := by decide
+example : (writeToGenbank exMultiRd exMultiRec).toOption.map (fun w => w.extract.features.map fun f => (f.tag, f.loc)) =
+    some [(0, .compound [⟨0, 1, .fwd⟩, ⟨2, 6, .fwd⟩, ⟨7, 9, .fwd⟩]),
+          (1, .compound [⟨8, 10, .rev⟩, ⟨4, 5, .rev⟩, ⟨3, 4, .rev⟩, ⟨0, 2, .rev⟩])] := by decide
+/-- … and the same exons in another order are still origin-spanning after the move, so the code leaves the feature out -/
+example : (writeToGenbank exMultiRd
+      { exMultiRec with features := [⟨0, "CDS", .compound [⟨18, 20, .fwd⟩, ⟨16, 17, .fwd⟩, ⟨0, 2, .fwd⟩], {}⟩] }).toOption.map
+      (fun w => w.extract.features.length) = some 0 := by decide
 
 /-- Renumbering is consistent: there is one renumbering per kind of area (protoclusters, candidate
     clusters, subregions) such that every written feature's references — the region's candidate and
@@ -194,7 +223,7 @@ example : ¬ TiesByRecordNumber exTie 2000 ((protoDict exTie).map fun kv => (kv.
 def ExtractReloads (rd : RegionData) (rec : BioRecord) (w : Written) : Prop :=
   selfConsistent rec.length rd w.extract.features = true
 
-/-- Proved: all five parts of `selfConsistent`, four of them exactly as executed —
+/-- Proved: `ExtractReloads`, the executable `selfConsistent` in full —
     * `numberedAsLoaded` for protoclusters, candidate clusters and subregions: all written features of the kind
       carry a number, the numbers are `1..n` each exactly once (`n` = how many are written = how many areas the
       region has), and a feature that a loading record (`CDSCollection.__lt__`) orders strictly before another
@@ -202,26 +231,25 @@ def ExtractReloads (rd : RegionData) (rec : BioRecord) (w : Written) : Prop :=
     * `refsInRange`: every reference by number (region → candidates, subregions; candidate → protoclusters;
       core → protocluster) is the number of a feature present in the file;
     * `oneRegion`: the file has exactly one region feature and it spans the whole file;
-    * `CoresAgree`: the `core_location` text of each written protocluster reads back through
-      `location_from_string` (shared `string_roundtrip`) to a location covering exactly the bases of the written
-      `proto_core` feature of the same number — the pointwise form of the executable `coresAgree`, which compares
-      canonical interval lists (the one difference to `ExtractReloads`).
-    Hypotheses: `wfInput`; `consistent` — the record's features and `RegionData` describe the same areas
-    (number ↦ location, one feature per area and kind, distinct numbers per kind, areas and cores inside the
-    region, one forward part or a forward pair over the origin), features are told apart by `tag`, and a feature
-    running over the origin reaches from the record's first to its last base; `regionFeatureOK` — exactly one
-    `region` feature can reach the file and it has the region's location. -/
-theorem extract_reloads_partial (rd : RegionData) (rec : BioRecord) (w : Written)
+    * `coresAgree`: the `core_location` text of each written protocluster reads back through
+      `location_from_string` (shared `string_roundtrip`) to a location with the same canonical interval list as
+      the written `proto_core` feature of the same number — from the pointwise `CoresAgree` (same bases) because
+      the canonical form is determined by the set of bases (`sep_unique`, `canon_eq_of_mem`, on shared `canon_spec`).
+    Hypotheses (what is handed to `write_to_genbank` is well-formed): `wfInput`; `consistent` — the record's features
+    and `RegionData` describe the same areas (number ↦ location, one feature per area and kind, distinct numbers
+    per kind, areas and cores inside the region, one forward part or a forward pair over the origin), features are
+    told apart by `tag`, and a feature running over the origin reaches from the record's first to its last base;
+    `regionFeatureOK` — exactly one `region` feature can reach the file and it has the region's location. -/
+theorem extract_reloads (rd : RegionData) (rec : BioRecord) (w : Written)
     (h : writeToGenbank rd rec = .ok w) (hwf : wfInput rd rec = true) (hcons : consistent rd rec = true)
     (hreg : regionFeatureOK rd rec = true) :
-    numberedAsLoaded (·.q.protoNumber) (ofType "protocluster" w.extract.features) = true ∧
-    numberedAsLoaded (·.q.candNumber) (ofType "cand_cluster" w.extract.features) = true ∧
-    numberedAsLoaded (·.q.subNumber) (ofType "subregion" w.extract.features) = true ∧
-    refsInRange w.extract.features = true ∧ oneRegion rec.length rd w.extract.features = true ∧
-    CoresAgree w.extract.features := by
+    ExtractReloads rd rec w ∧ CoresAgree w.extract.features := by
   obtain ⟨h1, h2, h3, h4, h5⟩ := written_selfconsistent rd rec w h hwf hcons
   obtain ⟨htags, hspan, _⟩ := consistent_unpack rd rec hcons
-  exact ⟨h1, h2, h3, h4, written_oneRegion rd rec w h hwf htags hspan hreg, h5⟩
+  refine ⟨?_, h5⟩
+  unfold ExtractReloads selfConsistent
+  simp only [h1, h2, h3, h4, coresAgree_of_CoresAgree _ h5, written_oneRegion rd rec w h hwf htags hspan hreg,
+    Bool.and_self]
 
 /-- Leader and tail locations of precursor peptides (`_adjust_motif`): a `leader_location` / `tail_location`
     text naming any number of parts is rewritten part by part — each part by itself is moved into file coordinates,
@@ -260,7 +288,7 @@ theorem write_succeeds_partial (rd : RegionData) (rec : BioRecord) (hwf : wfInpu
 /-- The written cross references resolve to the images of the original referents: for every area of the region
     (number `n` in the record, of any of the three kinds) the record's feature of that kind carrying `n` has an
     image in the file (same `tag`), and this image carries the number `ν n` to which `renumber_consistent`
-    says every reference to `n` was rewritten; by `extract_reloads_partial` no other written feature of the kind
+    says every reference to `n` was rewritten; by `extract_reloads` no other written feature of the kind
     carries `ν n`, and `ν n` is the number a loading record gives it.  Same hypotheses. -/
 theorem references_resolve_partial (rd : RegionData) (rec : BioRecord) (w : Written)
     (h : writeToGenbank rd rec = .ok w) (hwf : wfInput rd rec = true) (hcons : consistent rd rec = true) :
